@@ -7,12 +7,6 @@ From TV Require Import Common.Harness C17.Model C17.Law.
 Import ListNotations.
 Local Open Scope nat_scope.
 
-Definition query := (ty * ty * bool * api)%type.
-
-Definition config_of (s : list (list bool)) (m : list (list ty)) (offs : list (ty * ty * fac)) (q : query) : config :=
-  let '(src, tgt, flag, _) := q in
-  {| c_sub := s; c_mro := m; c_offers := offs; c_src := src; c_target := tgt; c_flag := flag |}.
-
 (* class of a value / outcome, length of its chain, identity of its chain *)
 Definition value_kind (v : value) : nat := match v with VSelf => 0 | VAdapter _ => 1 | VDefault => 2 end.
 Definition value_len (v : value) : nat := match v with VAdapter p => length p | _ => 0 end.
@@ -44,25 +38,24 @@ Definition obs_diff (m i : outcome) : list Z :=
     ++ chk 3 (list_eqb nat_list_eqb (map value_ids (outcome_vals m)) (map value_ids (outcome_vals i)))
   end.
 
-(* A case is a HISTORY: a list of phases.  Between two phases the hierarchy (ABCMeta.register) or the registry
-   (register_offer) was changed; every phase carries the tables / offer list current at that time (re-read from the
-   interpreter) and its queries with their position in the history.  The model answers every query from the tables
-   of its phase only — it has no memory — so anything the implementation carries over from an earlier phase shows. *)
-Definition phase := (list (list bool) * list (list ty) * list (ty * ty * fac) * list (Z * query * outcome))%type.
-Definition case := list phase.
+(* A case is a HISTORY: the initial state (tables read from the interpreter, offers) and the operations in order, each
+   query with the outcome recorded from the implementation.  The state is threaded by [Model.hstep] / [Law.hnext];
+   the model answers every query from the state current at that point only — it has no memory — so anything the
+   implementation carries over from an earlier state shows. *)
+Definition case := (hstate * list (hop * option outcome))%type.
 
-Definition corr_phase (ph : phase) : list Z :=
-  let '(s, m, offs, qs) := ph in
-  flat_map (fun x : Z * query * outcome => let '(i, q, o) := x in
-              map (fun c => (100 * i + c)%Z)
-                  (obs_diff (run_api (env_of (config_of s m offs q)) default_fuel (snd q)) o)) qs.
-Definition law_phase (ph : phase) : list Z :=
-  let '(s, m, offs, qs) := ph in
-  flat_map (fun x : Z * query * outcome => let '(i, q, o) := x in
-              map (fun c => (100 * i + c)%Z) (law (env_of (config_of s m offs q)) (snd q) o)) qs.
+Fixpoint corr_hist (i : Z) (st : hstate) (h : list (hop * option outcome)) : list Z :=
+  match h with
+  | [] => []
+  | (o, ob) :: r =>
+      match hstep default_fuel st o, ob with
+      | (_, Some mo), Some io => map (fun c => (100 * i + c)%Z) (obs_diff mo io)
+      | _, _ => []
+      end ++ corr_hist (i + 1)%Z (fst (hstep default_fuel st o)) r
+  end.
 
-Definition corr_codes (c : case) : list Z := flat_map corr_phase c.
-Definition law_codes (c : case) : list Z := flat_map law_phase c.
+Definition corr_codes (c : case) : list Z := corr_hist 0%Z (fst c) (snd c).
+Definition law_codes (c : case) : list Z := hlaw 0%Z (fst c) (snd c).
 
 (* for the evidence: how many queries of a case have a non-trivial answer in the model *)
 Definition mk_offer (i f t : nat) : offer := {| oid_ := i; ofrom := f; oto := t |}.
